@@ -1,0 +1,28 @@
+package cast
+
+import "strings"
+
+// GroupKeyNull is the segment that stands for SQL NULL (a nil or missing grouping
+// field) in a '|'-joined window key. No escaped text equals it: in
+// EscapeGroupKeyText output a backslash is always followed by '\' or '|'.
+const GroupKeyNull = `\N`
+
+// EscapeGroupKeyText makes the text of one grouping value safe for a '|'-joined
+// composite key: '\' is written `\\` and '|' is written `\|`. The escaped text
+// contains no bare '|', so the joined key can be split in only one way and
+// ("a|b","c") / ("a","b|c") no longer share a key. A text without '|' and '\'
+// -- the usual case -- is returned unchanged.
+func EscapeGroupKeyText(s string) string {
+	if !strings.ContainsAny(s, `\|`) {
+		return s
+	}
+	var sb strings.Builder
+	sb.Grow(len(s) + 4)
+	for i := 0; i < len(s); i++ {
+		if c := s[i]; c == '\\' || c == '|' {
+			sb.WriteByte('\\')
+		}
+		sb.WriteByte(s[i])
+	}
+	return sb.String()
+}
